@@ -728,7 +728,8 @@ Section Keys.
   Theorem selects_preserved_generic sp tp fss : forall kvs s w s' w',
     rows_okP sp fss s -> rows_okP tp fss w -> is_map w = true -> no_seq_along tp w = true ->
     (has_exact sp fss s = true -> has_create tp fss w = true) ->
-    (has_exact sp fss s = false -> forall kv, In kv kvs -> compat (fst kv) (snd kv) (labels_at sp s)) ->
+    (has_exact sp fss s = false ->
+     has_exact tp fss w = false \/ forall kv, In kv kvs -> compat (fst kv) (snd kv) (labels_at sp s)) ->
     sub (labels_at sp s) (labels_at tp w) ->
     KP fss kvs s = Ok s' -> KP fss kvs w = Ok w' ->
     sub (labels_at sp s') (labels_at tp w').
@@ -739,13 +740,14 @@ Section Keys.
       destruct (key_pass nonstr fss (k, v) s) as [s1| | |] eqn:EPs; cbn [bind] in Hs; try discriminate.
       destruct (key_pass nonstr fss (k, v) w) as [w1| | |] eqn:EPw; cbn [bind] in Hw; try discriminate.
       destruct (pass_effect nonstr k v sp fss s s1 Hoks EPs) as (Hgs & _ & _ & Hls & Hfs & _).
-      destruct (pass_effect nonstr k v tp fss w w1 Hokw EPw) as (Hgw & Hmw & Hnw & Hlw & _ & Hrw).
+      destruct (pass_effect nonstr k v tp fss w w1 Hokw EPw) as (Hgw & Hmw & Hnw & Hlw & Hfw & Hrw).
       apply (IH s1 w1 s' w'); auto.
       + eapply rows_okP_same; eauto.
       + eapply rows_okP_same; eauto.
       + rewrite (has_exact_same sp fss s s1 Hgs), (has_create_same tp fss w w1 Hgw). auto.
-      + rewrite (has_exact_same sp fss s s1 Hgs). intros Hex kv Hin.
-        unfold labels_at. rewrite (Hfs (has_exact_false _ _ _ Hex)). apply Hcomp; auto. right; auto.
+      + rewrite (has_exact_same sp fss s s1 Hgs), (has_exact_same tp fss w w1 Hgw). intros Hex.
+        destruct (Hcomp Hex) as [Hc|Hc]; [left; auto|right]. intros kv Hin.
+        unfold labels_at. rewrite (Hfs (has_exact_false _ _ _ Hex)). apply Hc; auto. right; auto.
       + destruct (has_exact sp fss s) eqn:Hex.
         * (* a selector row matches: the template receives the label too *)
           assert (Ew : labels_at tp w1 = upd k v (labels_at tp w)).
@@ -758,8 +760,10 @@ Section Keys.
         * (* no selector row: the selector is untouched; the key is compatible with it *)
           assert (Es : labels_at sp s1 = labels_at sp s).
           { unfold labels_at. rewrite (Hfs (has_exact_false _ _ _ Hex)). reflexivity. }
-          rewrite Es. destruct Hlw as [Hlw|[Hlw _]]; rewrite Hlw; auto.
-          apply sub_upd_right; auto.
-          apply (Hcomp eq_refl (k, v)). left; auto.
+          rewrite Es. destruct (Hcomp eq_refl) as [Hc|Hc].
+          -- unfold labels_at at 2. rewrite (Hfw (has_exact_false _ _ _ Hc)). exact Hsub.
+          -- destruct Hlw as [Hlw|[Hlw _]]; rewrite Hlw; auto.
+             apply sub_upd_right; auto.
+             apply (Hc (k, v)). left; auto.
   Qed.
 End Keys.
